@@ -347,7 +347,7 @@ pub fn check_python(c: &OneCase) -> Verdict {
     let base = match ask(&seq) {
         Ok(b) => b,
         Err(e) => {
-            v.fail("python-worker", e);
+            crate::pyworker::record_error(&mut v, e);
             return v;
         }
     };
@@ -364,7 +364,7 @@ pub fn check_python(c: &OneCase) -> Verdict {
                 }
             }
             Err(e) => {
-                v.fail("python-worker", e);
+                crate::pyworker::record_error(&mut v, e);
                 return v;
             }
         }
@@ -394,6 +394,7 @@ pub fn run(ctx: &mut Ctx) {
     let n = ctx.share(ctx.tier.pick(1_500, 20_000));
     ctx.run_leg::<Cli>(n, false, 200);
     super::timeouts_inconclusive(ctx);
+    crate::pyworker::infra_inconclusive(ctx);
 }
 
 pub fn replay(leg: &str, case: &serde_json::Value) -> Option<Result<Verdict, String>> {
